@@ -36,6 +36,10 @@ void vr_terminate(void);
 void vr_trap(void);
 void vr_unreachable(void);
 void vr_bad_icall(void);
+/* exception objects built by the models carry this vtable: slot 2 (offset 16) is what() */
+#define VR_FN_WHAT ((char*)(uintptr_t)0x7e0000000010ULL)
+extern char* vr_exc_vtable[4];
+char* vr_model_icall_pp(char* fn, char* a0);
 uint64_t vr_nondet_u64(void);
 
 #ifdef __CPROVER__
